@@ -436,15 +436,18 @@ func (x *TopicsIndex) Unsubscribe(filter, client string) bool {
 		return false
 	}
 
+	var existed bool
 	if shareSub {
 		group, _ := isolateParticle(filter, 1)
+		_, existed = particle.shared.Get(group, client)
 		particle.shared.Delete(group, client)
 	} else {
+		_, existed = particle.subscriptions.Get(client)
 		particle.subscriptions.Delete(client)
 	}
 
 	x.trim(particle)
-	return true
+	return existed
 }
 
 // RetainMessage saves a message payload to the end of a topic address. Returns
